@@ -427,3 +427,19 @@ func init() {
 		},
 	})
 }
+
+func init() {
+	register(&Property{
+		ID:    "C41",
+		Units: []string{"fasthttp.(*TCPDialer).dial", "fasthttp.(*TCPDialer).tryDial", "fasthttp.(*TCPDialer).getTCPAddrs", "fasthttp.resolveTCPAddrs", "fasthttp.(*TCPDialer).DialTimeout", "fasthttp.wrapDialWithUpstream", "fasthttp.AcquireTimer", "fasthttp.ReleaseTimer", "context.WithDeadline"},
+		Runs: []Run{
+			{Pkg: "fasthttp", Func: "vhC41Dialer", Quick: map[string]int{"dials": 3}, Thorough: map[string]int{"dials": 4}, NoNative: true, PathCap: 1500000},
+			{Pkg: "fasthttp", Func: "vhC41Rotation", NoNative: true},
+		},
+		Assume: []string{
+			"the real TCPDialer (slot channel, timers, context deadline, DNS cache in a modelled sync.Map) on the engine's cooperative scheduler with virtual time; (*net.Dialer).DialContext is replaced under the engine by a harness stub (//verif:stub) that counts dials in progress, yields, and then connects, refuses, or hangs until the context's deadline, as chosen per address; the Resolver is a harness fake",
+			"`dials` concurrent DialTimeout(1 s) calls with Concurrency ∈ {1,2} and DisableDNSResolution; one dial of a host resolving to 2..3 addresses with each endpoint connecting / refusing / hanging; switch points are blocking operations and the stub's yield; inputs are choices only (no symbolic data), so the deciding step is exhaustive exploration of the choice and schedule tree on the symbolic executor",
+			"sampled paths are not re-run natively (natively the real net.Dialer would dial the network); the operating system's adherence to the deadline, the DNS cache cleaner and the default resolver are outside this check",
+		},
+	})
+}
